@@ -17,7 +17,7 @@ ASSUMPTIONS = ['struct layouts: 3 float members, with a combined read/write meth
 REQUIRED_TAGS = ['struct-op', 'floatenum-op', 'limit-op', 'control-op']
 LIMITS = {'quick': {'max_paths': 30000, 'max_s': 150}, 'thorough': {'max_paths': 300000, 'max_s': 900}}
 
-STRUCT_OPS = ['write-member', 'write-struct', 'read-member', 'read-struct', 'assign-member', 'assign-struct', 'hw-changes']
+STRUCT_OPS = ['write-member', 'write-struct', 'read-member', 'read-struct', 'assign-member', 'assign-struct', 'hw-changes', 'failing-struct-read']
 LABELSETS = {'volts': (['500uV', '20mV', '1V'], 'V'), 'custom': ([(3, 'lo', 0.5), ('mid', 2.0), (7, 'hi', 10.0)], ''),
              'amps': (['1nA', '1uA', '1mA', '1A'], 'A')}
 
@@ -33,6 +33,7 @@ def cases(tier):
         out.append({'fn': 'run_floatenum', 'id': f'floatenum/{name}', 'params': {'labels': name}})
     for kind in ('minmax', 'limits', 'min', 'max'):
         out.append({'fn': 'run_limits', 'id': f'limits/{kind}', 'params': {'kind': kind}})
+        out.append({'fn': 'run_limits', 'id': f'limits/{kind}/hook-in-ancestor', 'params': {'kind': kind, 'inherited': True}})
     for n in (1, 2, 3):
         out.append({'fn': 'run_control', 'id': f'control/{n}', 'params': {'n': n, 'depth': depth}})
     return out
@@ -45,6 +46,7 @@ def tags(env):
 
 def run_struct(env, p):
     from frappy.core import Module, Parameter, FloatRange
+    from frappy.errors import HardwareError
     from frappy.extparams import StructParam
     hw = {'p': 1.0, 'i': 2.0, 'd': 3.0}
     members = ('p', 'i', 'd')
@@ -66,6 +68,9 @@ def run_struct(env, p):
                                                 d=Parameter('d', FloatRange())), 'pid_', readonly=False)
 
             def read_pid_p(self):
+                if hw.get('fail'):
+                    hw['fail'] = False
+                    raise HardwareError('one failing read')
                 return hw['p']
 
             def read_pid_i(self):
@@ -119,6 +124,17 @@ def run_struct(env, p):
                 setattr(m, 'pid_' + k, x)
             elif op == 'assign-struct':
                 m.ctrlpars = {'p': x, 'i': x + 1, 'd': x + 2}
+            elif op == 'failing-struct-read':
+                # one communication failure while the struct is read: later operations must still keep both sides consistent
+                if p['combined']:
+                    continue
+                hw['fail'] = True
+                try:
+                    m.read_ctrlpars()
+                except HardwareError:
+                    pass
+                hw['fail'] = False
+                m.read_ctrlpars()
             elif op == 'hw-changes':
                 hw['i'] = x
                 m.read_ctrlpars()
@@ -203,7 +219,15 @@ def run_limits(env, p):
         written.append(value)
         return value
     attrs['write_target'] = write_target
-    Mod = type('Mod', (Module,), attrs)
+    if p.get('inherited'):
+        # the parameter and a user check hook live in an ancestor class, the limit parameters are added by a subclass
+        def check_target(self, value):
+            if value == 13:
+                raise RangeError('unlucky')
+        Anc = type('Anc', (Module,), {'target': attrs.pop('target'), 'check_target': check_target, 'write_target': attrs.pop('write_target')})
+        Mod = type('Mod', (Anc,), attrs)
+    else:
+        Mod = type('Mod', (Module,), attrs)
     srv = C.make_node({'m': {'cls': Mod, 'description': 'm'}})
     m = srv.secnode.modules['m']
     K = 'C18/limits/' + kind
@@ -242,7 +266,7 @@ def run_limits(env, p):
         env.check(inside, K + '/accepted-outside-current-limits')
         env.check(len(written) == 1, K + '/driver-calls', len(written))
     else:
-        env.check(M.Not(inside), K + '/refused-inside-current-limits')
+        env.check(M.Or(M.Not(inside), x == 13) if p.get('inherited') else M.Not(inside), K + '/refused-inside-current-limits')
         env.check(written == [], K + '/driver-called-although-refused')
     env.note('limit-op')
     tags(env)
